@@ -87,6 +87,10 @@ func (orderEngine) Gen(rng *rand.Rand, tier string, i int) any {
 		}
 		c.Chain = append(c.Chain, orderPlug{name, behavs[rng.Intn(len(behavs))]})
 	}
+	if c.V6 && rng.Intn(5) == 0 {
+		// the last handler answers a relayed request with a complete Relay-Reply of its own
+		c.Chain = append(c.Chain, orderPlug{"syn", "replace-relay"})
+	}
 	c.YAML = rng.Intn(3) == 0
 	if c.YAML && len(c.Chain) >= 2 && rng.Intn(3) == 0 {
 		c.MergedAt = 1 + rng.Intn(len(c.Chain)-1)
@@ -368,6 +372,22 @@ func (orderEngine) Run(ctx *fw.Ctx, cs any) {
 			}
 		} else if m, err := pkt.Parse4(b); err == nil {
 			mark, _ = m.Get(synthOpt4)
+		}
+		if c.V6 && len(tr) > 0 && tr[len(tr)-1].Behav == "replace-relay" && len(b) > 34 && b[0] == 13 {
+			// the response returned last was a Relay-Reply built by the handler: that envelope is what goes out
+			ctx.Count("order.relay_reply_returned_by_handler", 1)
+			want := fmt.Sprintf("synth-%d", tr[len(tr)-1].ID)
+			found := false
+			if opts, err := pkt.ParseOpts6(b[34:]); err == nil {
+				for _, o := range opts {
+					if o.Code == 38 && string(o.Data) == want {
+						found = true
+					}
+				}
+			}
+			if !found {
+				ctx.Viol("C13", "sent-not-last-response", "%s, request %d: the last handler returned a Relay-Reply whose outer layer carries Subscriber-ID %q; the datagram sent does not carry it (the envelope was rebuilt)", desc, ri, want)
+			}
 		}
 		if !bytes.Equal(mark, lastMark) {
 			ctx.Viol("C13", "sent-not-last-response", "%s, request %d: the datagram sent is marked %v, the response returned last is marked %v", desc, ri, mark, lastMark)
